@@ -239,6 +239,8 @@ func (h *H) checkInbound(f inboundFlags, final bool) (ownedAtEnd map[uint16]bool
 		}
 	}
 
+	var tentative uint16
+	tentativeSet := false
 	oi := 0
 	for _, e := range events {
 		for wi < len(wire) && wire[wi].Seq <= e.Seq {
@@ -248,6 +250,10 @@ func (h *H) checkInbound(f inboundFlags, final bool) (ownedAtEnd map[uint16]bool
 		for oi < len(ops) && ops[oi].Seq <= e.Seq {
 			op := ops[oi]
 			oi++
+			if op.Err != nil && op.Kind == 'S' && tentativeSet && op.Key == 0x10000|uint(tentative) {
+				delete(owned, tentative) // the documented BUG: recovery is up to a later ReadSlices
+				tentativeSet = false
+			}
 			if op.Err == nil && op.Key&0x10000 != 0 {
 				switch op.Kind {
 				case 'S':
@@ -260,6 +266,13 @@ func (h *H) checkInbound(f inboundFlags, final bool) (ownedAtEnd map[uint16]bool
 		}
 		switch e.Kind {
 		case sim.EvAppStart:
+			// Ownership as the property states it: the application invokes
+			// ReadSlices again after an exactly-once message was returned to it.
+			// (Excepted, as documented: the marker Save of that invocation fails.)
+			if f.c04 && lastRet != nil && lastRet.qos == 2 && lastRet.seq > lastStart && !owned[lastRet.id] {
+				owned[lastRet.id] = true
+				tentative, tentativeSet = lastRet.id, true
+			}
 			lastStart = e.Seq
 		case sim.EvRead:
 			delivered[e.Conn] += len(e.Data)
@@ -285,6 +298,7 @@ func (h *H) checkInbound(f inboundFlags, final bool) (ownedAtEnd map[uint16]bool
 				}
 			}
 		case sim.EvAppRet:
+			tentativeSet = false
 			r := h.App.Result(e.N)
 			topic := string(r.Topic)
 			if r.Big {
@@ -301,7 +315,7 @@ func (h *H) checkInbound(f inboundFlags, final bool) (ownedAtEnd map[uint16]bool
 				break
 			}
 			if f.c04 && qos == 2 && owned[id] {
-				h.Failf("ReadSlices returned exactly-once message %q (identifier %#04x) again at event %d although the application had taken ownership (marker saved) and the broker's PUBREL has not ended the cycle", topic, id, e.Seq)
+				h.Failf("ReadSlices returned exactly-once message %q (identifier %#04x) again at event %d although the application had taken ownership (it invoked ReadSlices again after the first return) and the broker's PUBREL has not ended the cycle", topic, id, e.Seq)
 			}
 			nr := &ret{seq: e.Seq, topic: topic, id: id, qos: qos}
 			rets = append(rets, nr)
@@ -488,11 +502,24 @@ func inboundCase(rt *rapid.T, prop string, f inboundFlags) {
 				}
 			}
 			check(false)
+			// an orderly end: Close from another goroutine while the
+			// application holds what ReadSlices returned last, then the read
+			// loop invokes ReadSlices once more (which takes ownership) and
+			// learns of the end
+			orderly := rapid.Bool().Draw(rt, "closeThenReadOnceMore") && !h.App.InCall()
+			if orderly {
+				h.Act("close, then ReadSlices once more")
+				cl := h.Go("close", &Req{Kind: "close"}, func() (<-chan error, error) { return nil, h.Client.Close() })
+				h.MustPoll("Close returning", func() bool { return h.IsDone(cl) })
+				h.App.Step()
+				h.MustPoll("ReadSlices returning after Close", func() bool { return !h.App.InCall() })
+				h.label("close-then-read-once-more-then-restart")
+			}
 			h.Shutdown(5 * time.Second)
 			ownedNow := h.checkInbound(f, false)
 			n := h.Store.NOps()
 			k := n - rapid.IntRange(0, 3).Draw(rt, "back")
-			if k < 2 {
+			if k < 2 || orderly {
 				k = n
 			}
 			late := rapid.Bool().Draw(rt, "late")
